@@ -244,6 +244,10 @@ def judge_single(call, chk, probe=None):
         chk('passes/iteration-keyword', r['iteration'] == i + 1, {'pass': i + 1, 'got': r['iteration']})
 
     if call.get('scripted'):
+        # actions that only write finite numbers can never be the source of an exception
+        for r in evals[: E['npass']]:
+            if r.get('act') in ('delta', 'set', 'half', 'npunder', 'noop'):
+                chk('pass/finite-arithmetic-raised', r['exc'] is None, {'act': r.get('act'), 'exc': r['exc'], 'errors': opts['errors'], 'catch_first_error': opts['catch_first_error']})
         # warning-raising statements: turned into errors exactly under errors='raise' with catch_first_error
         strict = opts['errors'] == 'raise' and bool(opts['catch_first_error'])
         for r in evals[: E['npass']]:
